@@ -8,7 +8,8 @@ transformations of Model/C11SymAssign.lean (`shiftIsoform`, `shiftPolyA`, `shift
 `shiftCj`) have Python twins here, compared through the `C11.T.*` ops of Driver/C11Assign.lean on every run.
 
 `domain` = the hypotheses of the theorems (`NoSentinel` / `EndsSafe` / `ExonsSafe` / `SafePos`), evaluated literally
-(`MovedSafeA/T` with the real `shift_polya / shift_polyt` for every count up to the read length)."""
+(`MovedSafeA/T` with the real `shift_polya / shift_polyt` for every count up to the read length).  Since fix a2ae069
+(absent polyA position = infinitely far in detect_reference_exons_*) there is no distance-from-origin condition."""
 import vlib
 from gen import c11gen as T
 from gen import c01_annot as A
@@ -202,10 +203,6 @@ def _moved_safe(k, fn, blocks, pos):
     return True
 
 
-def _reach(p):
-    return max(p["max_fake_terminal_exon_len"], p["max_missed_exon_len"] + p["delta"])
-
-
 def ends_safe(k, p, t, blocks, polya):
     """EndsSafe for one isoform (PolyaSafe for '+', PolytSafe for '-')"""
     vlib.repo_on_path()
@@ -213,19 +210,14 @@ def ends_safe(k, p, t, blocks, polya):
     blocks = _tl(blocks)
     ex = t["exons"]
     if t["strand"] == "+":
-        ext, int_, fn, border, side = polya[0], polya[2], PV.shift_polya, ex[-1][1], 1
+        ext, int_, fn, border = polya[0], polya[2], PV.shift_polya, ex[-1][1]
     elif t["strand"] == "-":
-        ext, int_, fn, border, side = polya[1], polya[3], PV.shift_polyt, ex[0][0], 0
+        ext, int_, fn, border = polya[1], polya[3], PV.shift_polyt, ex[0][0]
     else:
         return True
     if not (safe_pos(k, ext) and safe_pos(k, int_)) or border == -1 or border + k == -1:
         return False
-    if not (_moved_safe(k, fn, blocks, ext) and _moved_safe(k, fn, blocks, int_)):
-        return False
-    if (ext == -1) == (int_ == -1):
-        return True
-    reach = _reach(p)
-    return all(reach < abs(e[side] + 1) and reach < abs(e[side] + 1 + k) for e in ex)
+    return _moved_safe(k, fn, blocks, ext) and _moved_safe(k, fn, blocks, int_)
 
 
 def dom_gene(par, kw):
@@ -242,7 +234,9 @@ def dom_assign(par, kw):
     return dom_profiles(par, kw) and all(ends_safe(k, kw["params"], t, kw["blocks"], kw["polya"]) for t in kw["isoforms"])
 
 
-# the sentinel −1 entering a `min` of distances (detectBeyondPolya_sentinel_arith_witness): the relation must FAIL
+# regression input of fix a2ae069 (before it the sentinel −1 entered a `min` of distances near the chromosome start and the
+# relation FAILED here: detectBeyondPolya_sentinel_arith_witness / verifyReadEnds_sentinel_arith_regression); an ordinary
+# case now: the relation must hold on model and real code
 WITNESS_PSPEC = ("default", None, "default")
 WITNESS = {"isoforms": [{"exons": [[10, 30], [200, 210]], "strand": "+"}], "blocks": [[10, 30]], "polya": [80, -1, -1, -1],
            "iso": 0, "events": []}
@@ -250,8 +244,6 @@ WITNESS = {"isoforms": [{"exons": [[10, 30], [200, 210]], "strand": "+"}], "bloc
 
 def dom_verify(par, kw):
     k = par["k"]
-    if k == 1000 and all(kw[x] == WITNESS[x] for x in WITNESS):
-        return "witness"
     return dom_profiles(par, kw) and ends_safe(k, kw["params"], kw["isoforms"][kw["iso"]], kw["blocks"], kw["polya"])
 
 
@@ -312,6 +304,8 @@ def _world(rng, tiny, offset):
     C = _c01()
     scale = 0.04 if tiny else 1.0
     isoforms = A.rand_annotation(rng, scale=scale, max_genes=2)
+    if offset == "origin":      # the first exon starts within 40 bases of the chromosome start (regression class of a2ae069)
+        offset = rng.randint(1, 40) - min(t["exons"][0][0] for t in isoforms)
     if offset:
         for t in isoforms:
             t["exons"] = T.shift_l(offset, t["exons"])
@@ -342,7 +336,7 @@ def cases(ctx):
     for tiny, n in ((False, n_worlds[0]), (True, n_worlds[1])):
         for _ in range(n):
             # tiny worlds start near the origin (sentinel hypotheses bite); genome-scale ones anywhere
-            offset = rng.choice([0, 0, 150, 5000]) if tiny else rng.choice([0, 0, 10 ** 5, 3 * 10 ** 7])
+            offset = rng.choice([0, 0, 150, 5000, "origin"]) if tiny else rng.choice([0, 0, 10 ** 5, 3 * 10 ** 7, "origin"])
             isoforms, scale, pspec, params, pj = _world(rng, tiny, offset)
             ij = C.isoforms_json(isoforms)
             base = {"isoforms": ij, "pspec": pspec, "params": pj}
@@ -386,7 +380,7 @@ def cases(ctx):
                             pa[3] = max(1, start + rng.randint(0, 2 * w)) if rng.random() < 0.4 else pa[3]
                     out.append(("S.verify_read_ends", {"k": k}, dict(kw, polya=pa, iso=iso, events=evs)))
     ctx.extra["xassign_universe"] = {"worlds_genome_scale": n_worlds[0], "worlds_tiny": n_worlds[1], "shifts": KS + [-7, -3],
-                                     "offsets": [0, 150, 5000, 10 ** 5, 3 * 10 ** 7]}
+                                     "offsets": [0, 150, 5000, 10 ** 5, 3 * 10 ** 7, "first exon at 1..40"]}
     return out
 
 
